@@ -123,7 +123,7 @@ func (cx *c20Ctx) optionCheck(op c20Option, tab *c20Table) {
 				f = name
 			}
 		}
-		if v.k != c20kObj || nt == nil || f == "" || len(v.fields) != 1 || (optT != nil && (optT != nt || field != f)) {
+		if v.k != c20kObj || nt == nil || f == "" || (optT != nil && (optT != nt || field != f)) {
 			r.Unknown(cc, cx.posOf(st, ctor.Decl.Pos()), "`%s` does not return an option value holding exactly the parameter (got %s)", src(r.P.Fset, st.retAt), v.String())
 			return
 		}
